@@ -162,7 +162,13 @@ def nested_format(chk, tier, seed):
                 hits += 1
                 chk.violation({"kind": "history", "what": "output lists stops %s, input has 0..%d" % (listed, nst - 1), "step": k,
                                "finding_shape": {"kind": "nested", "oracle": "C20", "op": last[0], "result": last[1], "group": last[2], "has_groups": bool(m.get("groups")),
-                                                 "detail": "stops", "tainted": tainted},
+                                                 "detail": "stops", "tainted": tainted,
+                                                 # the stops listed twice or not at all: do they belong to a group with a fixed member?
+                                                 "fixed_group": any(
+                                                     x in {y for ve in m["vehicles"] for y, fx in ve.get("initial", []) if fx}
+                                                     for g in m.get("groups", [])
+                                                     for gs in [[y for ui in g for y in m["units"][ui]["stops"]]]
+                                                     if any(listed.count(y) != 1 for y in gs) for x in gs)},
                                "case": G.case_lines(m, ops[:k])})
             o, rs, grp = last
             if o in ("munplanr", "vunplanr") or (o == "unplanr" and grp) or (o in ("planr", "plancr") and grp and rs != "done") \
